@@ -100,7 +100,7 @@ CHECKS = {
 ADDED = {
     "C02": " Also: (d) no random draw is stored under a data-dependent key and reused for several sample components.",
     "C03": " Also: (c) in every `shots is None` arm the weights handed on are the iterated probabilities themselves (times the parent branch's weight), not a renormalised or rescaled value.",
-    "C04": " Also: no `<<` is evaluated in fewer bits than the stated multiplicity range needs with a run-time count; an in-place rescaling helper returns on every path the factor it applied on that path.",
+    "C04": " Also: no `<<` is evaluated in fewer bits than the stated multiplicity range needs with a run-time count; an in-place rescaling helper returns on every path the factor it applied on that path; the native kernels branch on computed floating values only through exact tests (no absolute tolerance).",
     "C07": " Also: every closed-form block is free of config.hbar; the S_(c) matrices printed in the class docstrings equal [[P, A], [conj A, conj P]] assembled from the blocks (LaTeX fragment reader); the steps registered for gates keep the requested mode order (no sorted image, no order-insensitive shortcut).",
     "C08": " Also: (b) every update of the mixed-Fock density matrix has a Hermiticity-preserving form (K rho K^dagger with the same K on both sides, an elementwise factor exp(i(g(ket) - g(bra))), an explicit conjugate-transpose mirror fill) and the attenuator's weights are symmetric under ket <-> bra.",
     "C09": " Also: (d) the NumPy/numba and the JAX implementation of the Gaussian density-matrix recurrence have the same normal form (pivot, initial term, loop summands, divisor).",
